@@ -86,6 +86,7 @@ partial def decConv (j : Json) : Except String Conv := do
   | "constituency_totals" => pure .constituencyTotals
   | "party_totals" => pure .constituencyTotals
   | "merged_distributions" => pure .mergedDistributions
+  | "merged_selections" => pure .mergedSelections
   | "inverted_simple" => pure .invertedSimpleVotes
   | "sel_to_dist" => do
       let a ← j.getObjVal? "amount" >>= decV
